@@ -439,10 +439,12 @@ def att_violations(r):
                     out.append((n, "proof accepted for a malformed path %s" % (o["path"],)))
                 else:
                     kp = i["keccak"].get(o["path"][0])
+                    # rule: accepted => attestation height == proof height, and a consensus state at that height
+                    if int(dp["height"]) != int(h[1]):
+                        out.append((n, "%s accepted at proof height %s for a packet attestation of height %s (attested height must equal the proof height; consensus heights %s)" % (
+                            "membership" if t == "vm" else "non-membership", h[1], dp["height"], sorted(int(x) for x in stored))))
                     if h[0] != "0" or h[1] not in stored:
-                        out.append((n, "proof accepted at height %s without a consensus state" % (h,)))
-                    if dp["height"] != h[1]:
-                        out.append((n, "proof accepted at height %s for an attestation of height %s" % (h, dp["height"])))
+                        out.append((n, "proof accepted at height %s-%s without a consensus state (stored: %s)" % (h[0], h[1], sorted(int(x) for x in stored))))
                     mine = [c for (p_, c) in dp["packets"] if p_ == kp]
                     if t == "vm":
                         if len(o["value"]) != 64 or o["value"] not in mine:
